@@ -28,8 +28,13 @@ def lower (s : String) : String := pyLower s
 /-! named state writers (every write to the model state goes through one of these or the ones in
     Interp/Bodies/Commands; the proofs have one lemma per writer) -/
 def setStatus (uid : Nat) (st : Status) : M Unit := modW uid fun w => { w with status := st }
-def setNp (uid : Nat) (n : Int) : M Unit := modW uid fun w => { w with np := n }
-def addPid (uid pid : Nat) : M Unit := modW uid fun w => { w with pids := w.pids ++ [pid] }
+/-- `np < 0 → 0`, `ValueError` for a singleton above 1, else assign (`set_numprocesses` / `set_opt`);
+    `false` = it raised -/
+def trySetNp (uid : Nat) (n : Int) : M Bool := fun s =>
+  let w := (s.ws.find? (·.uid = uid)).getD defaultWatcher
+  let n := if n < 0 then 0 else n
+  if w.singleton && n > 1 then (false, s)
+  else (true, { s with ws := s.ws.map fun w => if w.uid = uid then { w with np := n } else w })
 def bumpHook (uid : Nat) (h : String) (i : Nat) : M Unit :=
   modW uid fun w => { w with hookCalls := (h, i + 1) :: w.hookCalls.filter (·.1 ≠ h) }
 def setObjStopping (pid : Nat) (b : Bool) : M Unit := modO pid fun o => { o with stopping := b }
